@@ -805,6 +805,8 @@ class Emitter:
             mark = self.touch_mark(cx)
             ot, oty = self.ex(obj_e, cx)
             kind = self.member_kind(oty) if oty is not None else None
+            if oty is not None and oty.ptr == 1 and arrow and self.member_kind(oty.deref()) in ('thread', 'vec', 'cv', 'fstream'):
+                ot = '(*%s)' % ot; oty = oty.deref(); kind = self.member_kind(oty)
             if oty is not None and oty.ptr == 0 and kind != 'class' and kind != 'sptr':
                 if mname not in self.READONLY_BUILTINS: self.touch_writes(cx, mark)
                 return self.builtin_method(ot, oty, kind, mname, args, cx)
@@ -1032,6 +1034,26 @@ class Emitter:
                 out += pad + 'memset(%s, 0, sizeof(%s));\n' % (name, name)
                 for i, e in enumerate(init):
                     out += pad + '%s[%d] = %s;\n' % (name, i, self.ex(e, cx)[0])
+            return out
+        if k == 'rangefor':
+            # for (T x : {a, b, c}) body  ->  one copy of the body per element, in order
+            _, rty, rname, elems, body, line = s
+            def has_jump(n):
+                if isinstance(n, tuple):
+                    if n and n[0] in ('break', 'continue'): return True
+                    return any(has_jump(x) for x in n)
+                if isinstance(n, list): return any(has_jump(x) for x in n)
+                return False
+            if has_jump(body): raise EmitError('%s:%d: break/continue inside a range-based for over a braced list' % (cx.fname, line))
+            out = ''
+            for e in elems:
+                cx.push(); cx.cleanup.append([])
+                cx.declare(rname, rty)
+                out += pad + '{\n' + pad + '    %s %s = %s;\n' % (self.ctype(rty), rname, self.ex(e, cx)[0])
+                out += self.stmt(body, cx, ind + 1)
+                out += pad + '}\n'
+                cx.cleanup.pop(); cx.pop()
+            self.dropped.add('range-based for over a braced list (unrolled)')
             return out
         if k == 'for':
             _, init, cond, step, body, line = s
